@@ -2,6 +2,7 @@
 #include "../aj/extract.hpp"
 #include "../aj/readers.hpp"
 #include "../common/driver_main.hpp"
+#include "../common/gen_input.hpp"
 #include "../common/gen_value.hpp"
 #include "../common/refjson.hpp"
 #include "../common/refmsgpack.hpp"
@@ -19,24 +20,28 @@ static bool tol_equal(const MVal& e, const MVal& y, std::string& why) {
 
 template <class Src, class Pos>
 static void drive(Ctx& c, bool msgpack, Src& src, Pos pos, const std::vector<Piece>& pieces, size_t total, const char* kind, const std::string& wit,
-                  std::vector<std::pair<int, std::string>>* record) {
-  AJ::JsonDocument doc;
+                  std::vector<std::pair<int, std::string>>* record, const MVal* filter = nullptr) {
+  AJ::JsonDocument doc, fdoc;
+  if (filter) build(fdoc.to<AJ::JsonVariant>(), *filter);
+  using namespace AJ::DeserializationOption;
   for (size_t i = 0; i < pieces.size(); i++) {
     const Piece& p = pieces[i];
-    auto err = msgpack ? AJ::deserializeMsgPack(doc, src, AJ::DeserializationOption::NestingLimit(50)) : AJ::deserializeJson(doc, src, AJ::DeserializationOption::NestingLimit(50));
+    AJ::DeserializationError err;
+    if (filter) err = msgpack ? AJ::deserializeMsgPack(doc, src, Filter(fdoc), NestingLimit(50)) : AJ::deserializeJson(doc, src, Filter(fdoc), NestingLimit(50));
+    else err = msgpack ? AJ::deserializeMsgPack(doc, src, NestingLimit(50)) : AJ::deserializeJson(doc, src, NestingLimit(50));
     size_t at = pos();
     c.count("calls");
     std::string w = std::string(kind) + ", document " + std::to_string(i) + " of " + std::to_string(pieces.size()) + "; " + wit;
     if (err != AJ::DeserializationError::Ok) { c.violation("stream-document-rejected", std::string("call ") + std::to_string(i) + " returned " + err_name(err) + " for " + printable(p.text, 80), w); return; }
     MVal y = extract(doc); std::string why;
-    if (!tol_equal(p.value, y, why)) { c.violation("stream-wrong-document", "call " + std::to_string(i) + " returned another document: " + why + " (got " + describe(y, 120) + ")", w); return; }
+    if (!filter && !tol_equal(p.value, y, why)) { c.violation("stream-wrong-document", "call " + std::to_string(i) + " returned another document: " + why + " (got " + describe(y, 120) + ")", w); return; }
     bool ok = at == p.end || (p.is_number && at == std::min(total, p.end + 1));
     if (!ok) { c.violation("stream-consumption", "after call " + std::to_string(i) + " the stream is at byte " + std::to_string(at) + ", the document ends at byte " + std::to_string(p.end) + (p.is_number ? " (number: one further byte allowed)" : ""), w); return; }
     if (p.is_number && at == p.end + 1) c.count("numbers_consuming_one_more_byte");
     if (record) { std::string s; AJ::serializeJson(doc, s); record->push_back({(int)err.code(), s + "@" + std::to_string(at)}); }
   }
   // past the last document: empty input, nothing more consumed than what is there
-  auto err = msgpack ? AJ::deserializeMsgPack(doc, src) : AJ::deserializeJson(doc, src);
+  auto err = filter ? (msgpack ? AJ::deserializeMsgPack(doc, src, Filter(fdoc)) : AJ::deserializeJson(doc, src, Filter(fdoc))) : (msgpack ? AJ::deserializeMsgPack(doc, src) : AJ::deserializeJson(doc, src));
   if (err != AJ::DeserializationError::EmptyInput) c.violation("stream-end-misreported", std::string("a call at the end of the stream returned ") + err_name(err) + " instead of EmptyInput", std::string(kind) + "; " + wit);
 }
 
@@ -52,6 +57,13 @@ void vf_run_case(Ctx& c, uint64_t index) {
     GenOpt g; g.max_depth = (int)r.range(0, 3); g.max_width = 4; g.budget = 20; g.str_mode = 1; g.dup_keys = false; g.float32_only = !kUseDouble;
     if (msgpack) { g.allow_binext = true; g.allow_nonfinite = false; g.dup_keys = true; }
     p.value = r.chance(1, 3) ? gen_scalar(r, g) : gen_value(r, g);
+    if (r.chance(1, 3)) {   // strings whose last characters are backslashes and quotes (the skip routines of a filtered run must end them at the same byte)
+      static const char* tails[] = {"C:\\tmp\\", "\\", "\\\\", "say \"hi\"", "\\\"", "a\\\"b\\", "'", "\\'"};
+      MVal sv = MVal::str(r.pick(tails));
+      if (p.value.k == MVal::Arr) p.value.a.push_back(sv);
+      else if (p.value.k == MVal::Obj) { if (!p.value.find(sv.s)) p.value.o.emplace_back(sv.s, MVal::str(r.pick(tails))); }
+      else p.value = sv;
+    }
     p.start = stream.size();
     if (msgpack) {
       MpEncOpt eo; eo.minimal = r.coin();
@@ -88,6 +100,14 @@ void vf_run_case(Ctx& c, uint64_t index) {
   std::vector<std::pair<int, std::string>> rec1, rec2;
   { ReadStats st; CountingReader cr{blk, blk + total, &st}; drive(c, msgpack, cr, [&]() { return st.delivered; }, pieces, total, "custom reader", wit, &rec1);
     if (st.reads_after_end > 1) c.violation("read-after-end", "custom reader called " + std::to_string(st.reads_after_end) + " times after reporting its end", wit); }
+  // the same stream read through a filter: every call still ends exactly where its document ends (skipped values included)
+  for (int k = 0; k < 2; k++) {
+    MVal f = k == 0 ? (r.coin() ? MVal::boolean(false) : gen_filter(r)) : gen_filter(r);
+    ReadStats st; CountingReader cr{blk, blk + total, &st};
+    std::string kind = "custom reader with filter " + describe(f, 80);
+    drive(c, msgpack, cr, [&]() { return st.delivered; }, pieces, total, kind.c_str(), wit, nullptr, &f);
+    c.count("filtered_streams");
+  }
   for (size_t chunk : {(size_t)1, (size_t)2, (size_t)3, (size_t)7, (size_t)64}) {
     ReadStats st; ChunkBuf cb(blk, total, chunk, &st); std::istream is(&cb);
     std::string kind = "std::istream (chunk " + std::to_string(chunk) + ")";
